@@ -174,7 +174,9 @@ pub fn run_batch(prop: &dyn Prop, args: &Args, runs: u64) -> BatchResult {
                 }
             });
         }
-        // monitor: hang detection only
+        // monitor: hang detection only. Not under Miri: with isolation off its sleeps follow the
+        // host clock, and when it wakes would perturb Miri's otherwise seed-determined schedule.
+        if !cfg!(miri) {
         scope.spawn(|| {
             while done_workers.load(Ordering::Acquire) < threads as u64 {
                 std::thread::sleep(std::time::Duration::from_millis(200));
@@ -185,6 +187,7 @@ pub fn run_batch(prop: &dyn Prop, args: &Args, runs: u64) -> BatchResult {
                 }
             }
         });
+        }
     })));
     if scope_result.is_err() {
         eprintln!("check: HARNESS ERROR: a simulator worker panicked outside the code under test (see above)");
@@ -648,6 +651,21 @@ pub fn write_evidence(
                 .set("positions of the first corrupted byte, classes hit", J::Arr(pos)),
         );
     }
+    if !st.interleavings.is_empty() {
+        let mut d = crate::rng::Fnv::default();
+        let mut v: Vec<u64> = st.interleavings.iter().copied().collect();
+        v.sort_unstable();
+        for x in &v {
+            d.write_u64(*x);
+        }
+        coverage.put(
+            "concurrent_shape_native",
+            J::obj()
+                .set("distinct_interleavings_observed", J::Int(v.len() as i64))
+                .set("measure", J::str("per threaded round of the std build: the sequence of thread ids in the order in which the threads started their parse calls (line granularity; a relaxed ticket counter). Natively the kernel decides it; under Miri (miri_slice) it is a function of -Zmiri-seed"))
+                .set("digest", J::Str(format!("{:016x}", d.0))),
+        );
+    }
     for (k, v) in extra.items {
         coverage.put(&k, v);
     }
@@ -900,6 +918,15 @@ pub fn cmd_check(args: &Args) -> i32 {
         reported,
         known_hits.len()
     );
+    if !res.stats.interleavings.is_empty() {
+        let mut v: Vec<u64> = res.stats.interleavings.iter().copied().collect();
+        v.sort_unstable();
+        let mut d = crate::rng::Fnv::default();
+        for x in &v {
+            d.write_u64(*x);
+        }
+        println!("{}: concurrent shape: {} distinct interleaving(s) observed, digest {:016x}", prop.id(), v.len(), d.0);
+    }
     if diverging > 0 {
         // The harness alone is deterministic (./check selftest-determinism on the unchanged tree),
         // so this points at the code under test: state shared between parser instances, which
